@@ -26,6 +26,7 @@ class Opts:
         self.max_paths = 200000
         self.txn_timeout_paths = True
         self.txn_body_raise = False   # fork one 'ANY' raise at the end of each txn body
+        self.for_unroll_max = 16      # loops over constant sequences up to this length are unrolled exactly
         for k, v in kw.items():
             if not hasattr(self, k):
                 raise TypeError(k)
@@ -40,8 +41,12 @@ def default_inline(f, caller, nargs=0, kwnames=()):
     if f.cls is None and f.parent is None and f.module == caller.module and f.name.startswith('_') \
             and not f.name.startswith('__'):
         return True     # private module-level helper of the same module
-    if f.parent is caller and not f.is_generator and caller.is_contextmanager:
-        return True     # local closure of a context manager (e.g. a shared epilogue of the transaction manager)
+    if f.parent is not None and (f.parent is caller or f.parent is caller.parent) and not f.is_generator \
+            and f is not caller:
+        return True     # local closure called by the function that defines it, or by a sibling closure
+    if f.cls is None and f.parent is None and f.module == caller.module and not f.is_generator \
+            and f.name not in ('args_to_key', 'full_name') and len(f.node.body) <= 12:
+        return True     # small module-level helper of the same module
     if f.cls != caller.cls or f.cls is None:
         return False
     if f.is_property:
@@ -496,6 +501,12 @@ class Interp(ExprMixin, CallMixin):
                     itv2, s = r[0]
                     if not isinstance(itv2, Raise):
                         itv = V('iterof', itv, itv2)
+            seq = self.const_sequence(itv)
+            if seq is not None and 0 < len(seq) <= self.opts.for_unroll_max:
+                un = self.unroll_for(n, seq, s.fork())
+                if un is not None:
+                    out.extend(un)
+                    continue
             nonempty = self.known_truth(itv, s)
             if nonempty is None and itv.k == 'mcall' and itv.a[0] in ('items', 'keys', 'values') \
                     and isinstance(itv.a[1], int) and itv.a[1] < len(s.trace):
@@ -528,6 +539,50 @@ class Interp(ExprMixin, CallMixin):
                         out.append((outcome, s2))
         return out
 
+    def const_sequence(self, itv):
+        """Elements of an iterable whose contents are fully known (constant tuple/list/dict, range of constants)."""
+        if itv.is_const and isinstance(itv.val, (tuple, list)):
+            return [C(x) for x in itv.val]
+        if itv.is_const and isinstance(itv.val, dict):
+            return [C(x) for x in itv.val]
+        if itv.k == 'tuple' and all(x.is_const or x.k in ('tuple', 'str') for x in itv.a[0]):
+            return list(itv.a[0])
+        if itv.k == 'term' and itv.a[0] == 'range' and all(x.is_const and isinstance(x.val, int) for x in itv.a[1]):
+            try:
+                r = range(*[x.val for x in itv.a[1]])
+            except Exception:
+                return None
+            if len(r) <= 256:
+                return [C(i) for i in r]
+        return None
+
+    def unroll_for(self, n, seq, st):
+        self.emit(st, 'FOR', n, it=1, iter=tup(seq), unrolled=len(seq))
+        states = [st]
+        out = []
+        for elem in seq:
+            nxt = []
+            for s in states:
+                for s1 in self.assign(n.target, elem, s, n.iter):
+                    if isinstance(s1, tuple):
+                        out.append(s1)
+                        continue
+                    for outcome, s2 in self.exec_block(n.body, s1):
+                        k = outcome[0]
+                        if k in ('next', 'continue'):
+                            nxt.append(s2)
+                        elif k == 'break':
+                            out.append((('next',), s2))
+                        else:
+                            out.append((outcome, s2))
+            states = nxt
+            if len(states) > 8 or len(out) > 64:
+                return None     # the body branches: fall back to the abstract 0/1-iteration treatment
+        for s in states:
+            self.emit(s, 'FOREND', n)
+            out.extend(self.exec_block(n.orelse, s) if n.orelse else [(('next',), s)])
+        return out
+
     # ------------------------------------------------------------------- try
     def handler_types(self, h, st):
         if h.type is None:
@@ -536,8 +591,25 @@ class Interp(ExprMixin, CallMixin):
         out = []
         for e in elts:
             d = dotted(e)
+            if d and d in st.env:
+                out.extend(self.exc_names_of(st.env[d], st.fn.module))
+                continue
             out.append(canon_exc(self.prog.resolve_name(st.fn.module, d)) if d else 'ANYEXC')
         return out
+
+    def exc_names_of(self, v, module=None):
+        """Exception classes denoted by a value (a class, an imported name or a tuple of them)."""
+        if v.k == 'tuple':
+            return [x for y in v.a[0] for x in self.exc_names_of(y, module)]
+        if v.k == 'global' and module is not None:
+            return [canon_exc(self.prog.resolve_name(module, v.a[0]))]
+        if v.k == 'cls':
+            return [canon_exc(v.a[0])]
+        if v.k == 'extfn':
+            return [canon_exc(v.a[0])]
+        if v.k == 'builtin':
+            return [canon_exc(v.a[0])]
+        return ['ANYEXC']
 
     def s_Try(self, n, st):
         htypes = [self.handler_types(h, st) for h in n.handlers]
